@@ -14,3 +14,6 @@ pub fn ascii_from_utf8(v: &[u8]) -> Result<&str, std::str::Utf8Error> {
 
 /// Stub for `alloc::fmt::format`: error paths that only build a message.
 pub fn empty_format(_args: std::fmt::Arguments<'_>) -> String { String::new() }
+
+/// Stub for `String::from_utf8_lossy` in error-message construction (output formatting is not the subject).
+pub fn lossy_stub(v: &[u8]) -> std::borrow::Cow<'_, str> { std::borrow::Cow::Borrowed("") }
